@@ -22,7 +22,9 @@ V = os.path.dirname(os.path.dirname(os.path.abspath(__file__)))
 
 
 def sh(cmd, **kw):
-    return subprocess.run(cmd, shell=True, capture_output=True, text=True, **kw)
+    # the checks run by this tool look at changed trees: their evidence records do not belong in evidence/
+    env = dict(os.environ, VERIF_EVIDENCE_DIR=os.path.join(V, ".work", "evidence-maintenance"))
+    return subprocess.run(cmd, shell=True, capture_output=True, text=True, env=env, **kw)
 
 
 ENV = ""
